@@ -15,12 +15,28 @@ def tree():
 
 
 # ---- lark classes constructed by the code ----------------------------------------------------------------------------------
+def _by_signature(names, args, kwargs):
+    """positional / keyword binding of lark's `Tree(data, children, meta=None)` and `Token(type, value, ...)`; a missing
+    or doubly given argument is a TypeError in CPython: outside the model (Unsupported => undecided)"""
+    from pyvc.values import Unsupported
+    bound = dict(zip(names, args))
+    for k, v in kwargs.items():
+        if k in bound or k not in names:
+            raise Unsupported(f"lark constructor called with a doubly given / unknown argument {k!r}")
+        bound[k] = v
+    if any(n not in bound for n in names):
+        raise Unsupported("lark constructor called without one of its required arguments")
+    return bound
+
+
 def _mk_tree(ex, st, args, kwargs):
-    return [(st, ex.alloc(st, Obj("Tree", {"data": args[0], "children": args[1]})))]
+    b = _by_signature(["data", "children"], args, kwargs)
+    return [(st, ex.alloc(st, Obj("Tree", {"data": b["data"], "children": b["children"]})))]
 
 
 def _mk_token(ex, st, args, kwargs):
-    return [(st, ex.alloc(st, Obj("Token", {"type": args[0], "value": args[1]})))]
+    b = _by_signature(["type", "value"], args, kwargs)
+    return [(st, ex.alloc(st, Obj("Token", {"type": b["type"], "value": b["value"]})))]
 
 
 assumed.CLASS_HOOKS["Tree"] = _mk_tree
